@@ -180,19 +180,6 @@ def string_step(ctx):
     rc = eval_rate(cname, x, **{kwname: tau})
     want = -g + 2 * np.einsum('ij,ij->i', g, tau)[:, None] * tau
     ctx.ob('STRING-STEP', loc, 'climbing images move along -grad E + 2 (grad E·τ) τ', equal(rc, want), 'climbrate = %s' % (rc,), node=nested.get(cname))
-    # wiring of the two integrator calls
-    ctx.ob('STRING-STEP', loc, 'plain integration starts from the path coordinates with the chosen timestep',
-           len(plain.args) >= 3 and norm(plain.args[1]) == 'self.coord' and norm(plain.args[2]) == 'timestep', norm(plain), node=plain)
-    tgt = climb._parent
-    ok = (isinstance(tgt, ast.Assign) and isinstance(tgt.targets[0], ast.Subscript) and norm(tgt.targets[0].slice) == 'climbindex'
-          and norm(climb.args[1]) == 'self.coord[climbindex]' and norm(climb.args[2]) == 'timestep')
-    ctx.ob('STRING-STEP', loc, 'climbing images are re-integrated from their own coordinates and replace the same rows', ok, norm(tgt)[:200], node=climb)
-    tk = [k for k in climb.keywords if k.arg][0]
-    # tangent passed is the path's unit tangent at the climbing indices
-    tdefs = [s for s in ast.walk(step) if isinstance(s, ast.Assign) and isinstance(s.targets[0], ast.Name) and s.targets[0].id == norm(tk.value).split('[')[0]]
-    ok = norm(tk.value).endswith('[climbindex]') and tdefs and norm(tdefs[0].value) == 'self.unittangent'
-    ctx.ob('STRING-STEP', loc, 'climbing images use their own unit tangents', bool(ok), norm(tk.value), node=climb)
-
     # unit tangent: evaluate on a symbolic 3-point path in the plane
     ut = ctx.fn(ISM, 'ISMPath.unittangent')
     c = symarray('c', (3, 2), real=True)
@@ -209,48 +196,6 @@ def string_step(ctx):
     ctx.ob('STRING-STEP', locu, 'end tangents are the unit forward/backward differences', equal(T[0], u0) and equal(T[2], u1), node=ut)
     ctx.ob('STRING-STEP', locu, 'interior tangent is the normalised sum of the adjacent unit differences',
            is_zero(sp.simplify(T[1][0] * mid[1] - T[1][1] * mid[0])) and is_zero(sp.simplify(T[1][0] ** 2 + T[1][1] ** 2 - 1)), node=ut)
-
-    # relax: climbing images = strict interior maxima, at most climbpoints; steps wired
-    relax = ctx.fn(ISM, 'ISMPath.relax')
-    locr = ISM + '::ISMPath.relax'
-    mm = [s for s in ast.walk(relax) if isinstance(s, ast.Assign) and isinstance(s.targets[0], ast.Name) and s.targets[0].id == 'maxmap']
-    ctx.need(len(mm) == 1, 'relax(): definition of maxmap not found')
-    e = symarray('e', (5,), real=True)
-    p = Path({'energy': e})
-    ev2 = SymEval(aliases)
-    try:
-        v = ev2.ev(mm[0].value, p)
-        want = [False] + [sp.And(e[i] > e[i - 1], e[i] > e[i + 1]) for i in range(1, 4)] + [False]
-        ok = len(v) == 5 and all((a is False and b is False) or (a is not False and b is not False and sp.simplify(sp.Equivalent(a, b)) == sp.true) for a, b in zip(list(v), want))
-        det = str(list(v))
-    except Opaque as ex:
-        ok, det = False, str(ex)
-    ctx.ob('STRING-STEP', locr, 'climbing candidates are the strict interior energy maxima; end images never climb', ok, det, node=mm[0])
-    trunc = [s for s in ast.walk(relax) if isinstance(s, ast.Assign) and norm(s.targets[0]) == 'climbindex' and isinstance(s.value, ast.Subscript)
-             and isinstance(s.value.slice, ast.Slice)]
-    ok = False
-    for s in trunc:
-        par = s._parent
-        if isinstance(par, ast.If) and 'climbpoints' in norm(par.test) and norm(s.value.slice.upper) == 'climbpoints' and s.value.slice.lower is None:
-            ok = True
-    ctx.ob('STRING-STEP', locr, 'at most `climbpoints` images climb', ok, node=trunc[0] if trunc else relax)
-    scalls = [c for c in calls_in(relax) if norm(c.func) == 'currentpath.step']
-    ctx.need(len(scalls) == 2, 'relax(): expected two step() call sites')
-    ok = all(norm(kwarg(c, 'timestep', 0)) == 'timestep' for c in scalls)
-    ok_c = [kwarg(c, 'climbindex', 1) for c in scalls]
-    ctx.ob('STRING-STEP', locr, 'relaxation steps do not climb; climbing steps pass the chosen climbing images', ok and ok_c[0] is None and norm(ok_c[1]) == 'climbindex',
-           '; '.join(norm(c) for c in scalls), node=scalls[0])
-    # interpolate_path keeps end points: new arc coordinates run from subα[0] to subα[-1] inclusive in each segment
-    ls = [c for c in calls_in(step) if norm(c.func) == 'np.linspace']
-    ctx.need(len(ls) == 1, 'step(): np.linspace re-spacing not found')
-    a0, a1, a2 = [norm(x) for x in ls[0].args[:3]]
-    ctx.ob('STRING-STEP', loc, 're-spacing keeps each segment\'s end points and its number of images',
-           a0.endswith('[0]') and a1.endswith('[-1]') and a0[:-3] == a1[:-4] and a2 == 'len(%s)' % a0[:-3] and not any(k.arg == 'endpoint' for k in ls[0].keywords),
-           norm(ls[0]), node=ls[0])
-    segs = {norm(s.targets[0]): norm(s.value) for s in ast.walk(step) if isinstance(s, ast.Assign) and norm(s.targets[0]) in ('startindices', 'endindices')}
-    ctx.ob('STRING-STEP', loc, 'segments run from 0 / each climbing image to the next climbing image (inclusive) / the end',
-           segs.get('startindices', '').replace(' ', '') == '[0]+aslist(climbindex)' and segs.get('endindices', '').replace(' ', '') == 'aslist(np.asarray(climbindex)+1)+[None]',
-           str(segs), node=step)
 
 
 def step_model(ctx):
@@ -283,6 +228,7 @@ def step_model(ctx):
                 self.a, self.y = a, y
 
             def __call__(self, x):
+                self.x = np.array(np.ravel(x), dtype=object)
                 return np.array([[sp.Function('spl%d' % j)(xi) for j in range(2)] for xi in np.ravel(x)], dtype=object)
         splines = []
         tang = symarray('tau', (4, 2), real=True)
@@ -314,6 +260,60 @@ def step_model(ctx):
         ok = len(splines) == 1 and inter is not None and equal(np.asarray(splines[0].y, dtype=object), inter.attrs['coord']) and equal(np.asarray(splines[0].a, dtype=object), inter.attrs['arccoord'])
         ctx.ob('STRING-STEP', loc, '%s: the new images are interpolated along the advanced string (spline through the advanced images over their arc lengths)' % tag, bool(ok), node=step, key='model spline ' + tag)
         ctx.ob('STRING-STEP', loc, '%s: the path the step was taken from keeps its coordinates' % tag, equal(selfobj.attrs['coord'], c), node=step, key='model operand ' + tag)
+        sA = [0] + [sp.Symbol('s%d' % i, positive=True) for i in range(1, 4)]
+        if climb is None:
+            wantx = [sA[0] + (sA[3] - sA[0]) * sp.Rational(i, 3) for i in range(4)]
+        else:
+            wantx = [sA[0] + (sA[2] - sA[0]) * sp.Rational(i, 2) for i in range(3)] + [sA[3]]
+        got_x = getattr(splines[0], 'x', None) if splines else None
+        ctx.ob('STRING-STEP', loc, '%s: images are re-spaced evenly in arc length within each segment (whole string, or start→climbing image→end), every segment keeping its end points and its number of images' % tag,
+               got_x is not None and len(got_x) == 4 and all(is_zero(sp.simplify(a_ - b_)) for a_, b_ in zip(got_x, wantx)), str(got_x), node=step, key='model respace ' + tag)
+
+
+def relax_model(ctx):
+    """ISMPath.relax interpreted with a recording step(): which steps are taken, from which path, with which climbing images, when it stops"""
+    cls = ctx.fn(ISM, 'ISMPath')
+    relax = ctx.fn(ISM, 'ISMPath.relax')
+    loc = ISM + '::ISMPath.relax'
+    aliases = module_aliases(ctx.mod(ISM))
+    R = sp.Rational
+    C0 = np.array([[R(0), R(0)], [R(1), R(0)], [R(2), R(0)]], dtype=object)
+    D = np.array([[R(0), R(1)], [R(0), R(0)], [R(0), R(-1, 2)]], dtype=object)
+    EN = [0, 2, 2, 1, 3, 2, 5, 4, 0]      # a plateau (not a maximum), two strict interior maxima at 4 and 6
+
+    def scenario(relaxsteps, climbsteps, tolerance, climbpoints):
+        calls = []
+        paths = {}
+
+        def mkpath(k):
+            def step(timestep=None, climbindex=None, _k=k):
+                calls.append((_k, timestep, None if climbindex is None else [int(v) for v in np.ravel(climbindex)]))
+                return mkpath(_k + 1)
+            o = SymObj(cls, {'coord': C0 + (1 - R(1, 2 ** k)) * D, 'step': step, 'energy': (lambda _k=k: arr([R(e) for e in EN])), 'default_timestep': R(1, 100), 'default_tolerance': R(1, 10 ** 6)}, 'path%d' % k)
+            paths[k] = o
+            return o
+
+        class T(PyStub):
+            def time(self):
+                return sp.Integer(0)
+        ev = SymEval(aliases)
+        ev.globals = {'time': T()}
+        try:
+            r = [q for q in ev.run_fn(relax, [mkpath(0)], dict(relaxsteps=relaxsteps, climbsteps=climbsteps, timestep=sp.Integer(1), tolerance=tolerance, climbpoints=climbpoints, verbose=False)) if q.done == 'return']
+        except (Opaque, WouldRaise) as e:
+            raise AnalysisError('ISMPath.relax on the model path: %s' % e)
+        ctx.need(len(r) == 1, 'ISMPath.relax does not reduce to one path')
+        return calls, r[0].ret, paths
+    # displacement per unit time of step k -> k+1 is 2^-(k+1)
+    for tag, rs, cs, tol, cp, want in (('stops each phase at the tolerance', 5, 3, R(1, 10), 1, [(0, None), (1, None), (2, None), (3, None), (4, [4])]),
+                                       ('tolerance never met: every step of both budgets taken', 3, 2, R(0), 2, [(0, None), (1, None), (2, None), (3, [4, 6]), (4, [4, 6])]),
+                                       ('no relaxation budget', 0, 2, R(0), 5, [(0, [4, 6]), (1, [4, 6])]),
+                                       ('no budget at all', 0, 0, R(1), 1, [])):
+        calls, ret, paths = scenario(rs, cs, tol, cp)
+        got = [(k, ci) for k, ts, ci in calls]
+        ok = got == want and all(ts == 1 for k, ts, ci in calls) and ret is paths[len(want)]
+        ctx.ob('STRING-STEP', loc, '%s: relaxation steps do not climb, climbing steps pass the strict interior energy maxima of the relaxed string (at most `climbpoints`, end images never), each step starts from the path the '
+               'previous one returned, a phase stops when the largest image displacement per unit time falls below the tolerance, and the last path is returned' % tag, bool(ok), 'steps taken %s' % got, node=relax, key='relax ' + tag)
 
 
 def run(ctx):
@@ -322,4 +322,4 @@ def run(ctx):
                        'cubic and its error expanded in the step; default-argument feasibility is a contradiction rule on the constructors; '
                        'the string step\'s rate laws, tangents and image selection are extracted and compared with the documented formulas. '
                        'Not decided: convergence to the minima/saddle.')
-    ctx.run_rules([lambda c: linear_order(c, EU, 'euler', 1), lambda c: linear_order(c, RK, 'rungekutta', 4), cdiff, default_feasible, string_step, pure_step, step_model])
+    ctx.run_rules([lambda c: linear_order(c, EU, 'euler', 1), lambda c: linear_order(c, RK, 'rungekutta', 4), cdiff, default_feasible, string_step, pure_step, step_model, relax_model])
